@@ -192,7 +192,8 @@ def build_layout(layout, system, rows, momentum=False, spelling="generic", extra
     assert len(rows) == N_ELEMS
     d = len(system) + 1
     if layout in NP_LAYOUTS:
-        a = np_array(system, rows, momentum, spelling=spelling if spelling == "momentum" else None, dtype=dtype, extra=bool(extra))
+        # (alt: the spelling alternates of Awkward records; for NumPy the order in which the dtype lists its fields)
+        a = np_array(system, rows, momentum, spelling=spelling if spelling == "momentum" else None, dtype=dtype, extra=bool(extra), perm=alt)
         return a.reshape(2, 3) if layout == "np2" else a
     if layout in NP_VIEW_LAYOUTS:
         # views sharing memory with a larger live base array (aliasing between result assembly and operand storage)
